@@ -32,11 +32,13 @@ ParamFull == ParamSmall \cup
     PT("o", TRUE,  FALSE, "minLen2", ":o<minLen(2)>?", <<":","o","<","m","i","n","L","e","n","(","2",")",">","?">>),
     PT("z", TRUE,  FALSE, "int", ":z<int>?", <<":","z","<","i","n","t",">","?">>),
     PT("g", FALSE, FALSE, "range5_20", ":g<range(5,20)>", <<":","g","<","r","a","n","g","e","(","5",",","2","0",")",">">>),
-    PT("l", FALSE, FALSE, "len2", ":l<len(2)>", <<":","l","<","l","e","n","(","2",")",">">>) }
+    PT("l", FALSE, FALSE, "len2", ":l<len(2)>", <<":","l","<","l","e","n","(","2",")",">">>),
+    \* the application registered a constraint of its own under the NAME of a built-in one: the registered one is the declared one
+    PT("u", FALSE, FALSE, "oddfloat", ":u<float>", <<":","u","<","f","l","o","a","t",">">>) }
 
 \* "-c": a delimiting literal of two bytes whose first byte also occurs inside values ("a-b"), whose second never does
 ConstMid == ConstSmall \cup { C(<<"/","A">>, "/A"), C(<<"/","a","/">>, "/a/"), C(<<"-","c">>, "-c") }
-ParamMid == ParamSmall \cup { p \in ParamFull : p.name \in {"r", "z", "b"} }
+ParamMid == ParamSmall \cup { p \in ParamFull : p.name \in {"r", "z", "b", "u"} }
 Consts == CASE Pool = "small" -> ConstSmall [] Pool = "mid" -> ConstMid [] OTHER -> ConstFull
 Params == CASE Pool = "small" -> ParamSmall [] Pool = "mid" -> ParamMid [] OTHER -> ParamFull
 Segs == Consts \cup Params
